@@ -1,5 +1,107 @@
-(* placeholder until the C03 theorems are in place *)
-From MptV Require Import Base.Mem Cobs.CobsModel Cobs.DecModel.
-Example C03_len_zero_example : len_zero v_zpe 225 65%N = 2.
-Proof. reflexivity. Qed.
-Print Assumptions C03_len_zero_example.
+(* C03 — Decoders are safe and honest on arbitrary bytes.
+   Only the property theorems, their non-vacuity examples and Print Assumptions.
+
+   Reading guide.  [dec_call v st buf frags peek] transcribes one call of mpt_decode_cobs /
+   _cobs_r / _cobs_zpe / _cobs_zpe_r on the concatenation [buf] of the caller's iovecs
+   (DecModel.v); [st] is the resume state (context code/pos, curr, data.pos/len/msg).
+   [dec_loop] is the block loop inside it: it reads the bytes [inp] from the read position
+   on, with [proc] = the gap between write and read position, and appends to the decoded
+   bytes [out].  [sdec v] is the reference decoder (CobsModel.v).  The theorems hold for
+   EVERY byte list, every resume state and every variant record — no well-formedness of
+   the input is assumed unless stated. *)
+From MptV Require Import Base.Mem Cobs.CobsModel Cobs.DecModel Cobs.EncProofs Cobs.DecProofs Cobs.DecCall.
+
+(* SAFETY, one call, arbitrary bytes and (well-formed) resume state: the region keeps its
+   size; nothing before the state's decoded data is written; if anything was written, the
+   read position left behind lies inside the region and everything at or after it is
+   untouched — i.e. decoded bytes only go into the already consumed part of the input.
+   The resulting state is again well formed, so this covers every reachable resume state. *)
+Theorem C03_call_writes_only_consumed_part :
+  forall v st buf frags peek, dwf st ->
+    let '(r, st', buf') := dec_call v st buf frags peek in
+    touches_only st buf st' buf' /\ dwf st'.
+Proof. exact dec_call_touches. Qed.
+
+(* gap accounting of the block loop: bytes written + gap left = gap before + bytes read, and
+   no more is read than is readable — the write position never passes the read position *)
+Theorem C03_loop_gap_accounting :
+  forall v peek inp code pos proc out cons,
+    let r := dec_loop v peek inp code pos proc out cons in
+    exists added, lout r = out ++ added /\ cons <= lcons r /\ lcons r - cons <= length inp /\
+      length added + lproc r = proc + (lcons r - cons).
+Proof. exact dec_loop_gap. Qed.
+
+(* SEGMENTATION: stopping because the readable bytes ran out and continuing later with more
+   bytes gives exactly the result of one call on the concatenation *)
+Theorem C03_segmentation_independent :
+  forall v inp1 inp2 code pos proc out cons,
+    let r1 := dec_loop v false inp1 code pos proc out cons in
+    lr r1 = DMore -> lcons r1 - cons = length inp1 ->
+    dec_loop v false (inp1 ++ inp2) code pos proc out cons =
+    dec_loop v false inp2 (lcode r1) (lpos r1) (lproc r1) (lout r1) (lcons r1).
+Proof. exact dec_loop_app. Qed.
+
+(* HONESTY: for arbitrary input bytes, if the loop delivers a message, the bytes consumed for
+   it are  body ++ [0]  and the message is the reference decoding of body; until then the
+   decoded bytes are the reference decoding of the blocks seen so far ([hon]).  A zero inside
+   a block is reported (MissingData) with the zero still unread and never becomes a message
+   for COBS and COBS/ZPE. *)
+Theorem C03_delivery_is_reference_decoding :
+  forall v inp F code pos proc out cons,
+    hon v F out code pos ->
+    honest_post v F inp cons (dec_loop v false inp code pos proc out cons).
+Proof. exact dec_loop_honest. Qed.
+
+(* ... and for COBS/R and COBS/ZPE+R that report is the tail-inline encoding: the message the
+   wrapper delivers (decoded bytes ++ the code byte) is again the reference decoding *)
+Theorem C03_inline_tail_is_reference_decoding :
+  forall v F msg code pos, inl v = true -> hon v F msg code pos -> pos < len_data v code ->
+    sdec v F = Some (msg ++ [nb code]).
+Proof. exact hon_inline. Qed.
+
+(* COMPLETENESS on well-formed frames: blocks that are well formed are delivered as exactly
+   the reference decoding, provided the gap suffices ([gapok]) ... *)
+Theorem C03_wellformed_frame_delivered :
+  forall v more c d proc out cons tl,
+    block_ok v (c, d) -> Forall (block_ok v) more -> gapok v proc ((c, d) :: more) ->
+    exists p', dec_loop v false (d ++ tail_bytes more ++ tl) c 0 proc out cons =
+      mkl DMsg (out ++ msg_of v ((c, d) :: more)) (cons + length (d ++ tail_bytes more)) p' 0 0.
+Proof. exact dec_loop_complete. Qed.
+
+Theorem C03_delivered_message_is_sdec :
+  forall v bs c d, Forall (block_ok v) bs -> block_ok v (c, d) ->
+    msg_of v (bs ++ [(c, d)]) = dec_closed v bs ++ d ++ zeros (zeros_last v c) /\
+    sdec v (flat bs ++ nb c :: d) = Some (dec_closed v bs ++ d ++ zeros (zeros_last v c)).
+Proof. exact delivered_is_sdec. Qed.
+
+(* ... and without zero-pair codes (COBS, COBS/R) one byte of gap — the code byte just read —
+   is always enough: these decoders need no extra room *)
+Theorem C03_cobs_needs_no_slack :
+  forall v, zpe v = false -> forall bl proc, 1 <= proc -> gapok v proc bl.
+Proof. exact gapok_cobs. Qed.
+
+(* ---- non-vacuity ---- *)
+Example C03_hon_start : forall v c, 1 <= c -> hon v [nb c] [] c 0.
+Proof. exact hon_start. Qed.
+
+Example C03_example_call :
+  let '(r, st', buf') := dec_call v_zpe (dinit 3) [238;238;238;225;65;2;66;1;0]%N [9] false in
+  r = DMsg /\ dmsg st' = Some 5 /\ firstn 5 (skipn (dpos st') buf') = [65;0;0;66;0]%N.
+Proof. vm_compute. auto. Qed.
+
+Example C03_example_malformed :
+  let '(r, st', buf') := dec_call v_cobs (dinit 0) [3;65;0;66;0]%N [5] false in
+  r = DErr MissingData /\ dmsg st' = None.
+Proof. vm_compute. auto. Qed.
+
+Example C03_dwf_init : forall n, dwf (dinit n).
+Proof. intros n c H. discriminate. Qed.
+
+Print Assumptions C03_call_writes_only_consumed_part.
+Print Assumptions C03_loop_gap_accounting.
+Print Assumptions C03_segmentation_independent.
+Print Assumptions C03_delivery_is_reference_decoding.
+Print Assumptions C03_inline_tail_is_reference_decoding.
+Print Assumptions C03_wellformed_frame_delivered.
+Print Assumptions C03_delivered_message_is_sdec.
+Print Assumptions C03_cobs_needs_no_slack.
